@@ -34,6 +34,8 @@ EvStep ==
        [] e.ev = "Call" /\ e.t = "op"  -> CallOp(e.c, e.id, e.op) /\ UNCHANGED shutReq
        [] e.ev = "Ret"                 -> Matches(resp[e.c], e) /\ Ret(e.c) /\ UNCHANGED shutReq
        [] e.ev = "ShutdownReq"         -> shutReq' = TRUE /\ UNCHANGED vars
+       [] e.ev = "ShutdownDone"        -> shut # "up" /\ UNCHANGED <<vars, shutReq>>       \* _request_shutdown() has returned
+       [] e.ev = "OpenGate"            -> OpenGate /\ UNCHANGED shutReq
        [] OTHER -> FALSE
   /\ l' = l + 1 /\ UNCHANGED tid
 
